@@ -139,6 +139,12 @@ impl<'a> CaseRunner<'a> {
         }
       }
     }
+    if rec.aborted.is_some() {
+      // An aborted build may have modified resources (tasks that completed their writes before the abort, and the
+      // create_writer/written_to route, which writes before it validates). Their dependents were not brought up to date,
+      // so - like a file watcher would - the harness reports these resources to the next bottom-up build.
+      for e in &rec.events { if let Ev::WriterSet { res, .. } = e { self.drv.pending.insert(*res); } }
+    }
     if let Some(msg) = &rec.aborted {
       self.any_abort = true;
       self.rep.count("aborts");
@@ -323,7 +329,13 @@ impl<'a> CaseRunner<'a> {
     // violation the tasks contain in this state (a strict build stops at the first one it meets)
     let mut orders: Vec<Vec<u32>> = vec![known.clone(), known.iter().rev().copied().collect()];
     // programs with a live violation are order-sensitive: also try the order pie was asked for, and the two tasks named
-    for first in [rec.requested_roots.clone(), cur.into_iter().collect(), other.into_iter().collect(), other.into_iter().chain(cur.into_iter()).collect()] {
+    // the order in which pie itself started executing tasks in this session (matters for bottom-up builds, where the
+    // queue decides who runs first and a hidden write changes what later tasks see)
+    let mut exec_order: Vec<u32> = Vec::new();
+    for e in &rec.events { if let Ev::ExecStart { task } = e { if !exec_order.contains(task) { exec_order.push(*task); } } }
+    let mut exec_order_completed: Vec<u32> = Vec::new();
+    for e in &rec.events { if let Ev::ExecEnd { task, .. } = e { if !exec_order_completed.contains(task) { exec_order_completed.push(*task); } } }
+    for first in [rec.requested_roots.clone(), exec_order, exec_order_completed, cur.into_iter().collect(), other.into_iter().collect(), other.into_iter().chain(cur.into_iter()).collect()] {
       if first.is_empty() { continue; }
       let mut o: Vec<u32> = Vec::new();
       for t in first.iter().chain(known.iter()) { if !o.contains(t) { o.push(*t); } }
@@ -339,6 +351,8 @@ impl<'a> CaseRunner<'a> {
         crate::refm::RefViol::UserPanic { .. } => "user-panic",
       }
     };
+    let mut strict_orders = 0;
+    let mut strict_aborted = 0;
     for order in &orders {
       for collect in [false, true] {
         let mut r = RefRun::new(&p, &rec.pre_world);
@@ -346,11 +360,19 @@ impl<'a> CaseRunner<'a> {
         for t in order { if r.viol.is_some() { break; } r.eval(*t); }
         if let Some(v) = &r.viol { ref_kinds.insert(kind_of(v)); }
         for v in &r.collected { ref_kinds.insert(kind_of(v)); }
+        if !collect { strict_orders += 1; if r.viol.is_some() { strict_aborted += 1; } }
       }
     }
     let _ = (cur, other);
     if ref_kinds.contains("outside-class") { self.rep.count("sessions_outside_program_class"); return None; }
     if ref_kinds.contains(kind) { self.rep.count("aborts_confirmed_by_from_scratch_build"); return None; }
+    // The property's quantifier: "an abort only if a from-scratch build of all known tasks, in the current state, aborts
+    // as well". When the from-scratch build aborts in EVERY evaluation order tried (the current state does contain a
+    // violation, though the first one met is of another kind), pie's abort is not spurious in that sense.
+    if strict_orders > 0 && strict_aborted == strict_orders && ref_kinds.iter().any(|k| matches!(*k, "cycle" | "hidden-dependency" | "overlapping-write")) {
+      self.rep.count("aborts_in_states_where_every_from_scratch_build_aborts_with_another_diagnosis");
+      return None;
+    }
     // stale-edge classifier
     let executed_now: BTreeSet<u32> = rec.events.iter().filter_map(|e| if let Ev::ExecStart { task } = e { Some(*task) } else { None }).collect();
     let solo = |t: u32| { let mut r = RefRun::new(&p, &rec.pre_world); r.eval(t); r };
@@ -384,6 +406,21 @@ impl<'a> CaseRunner<'a> {
       }
       _ => None,
     };
+    // A bottom-up build trusts the cached output of every task that was not scheduled. In mixed histories such a task
+    // can be stale (finding K1); a task that consumes the stale output then behaves as it would not in the current state
+    // and may run into a violation a from-scratch build does not contain. This is a consequence of K1, accepted only
+    // with a concrete witness: a require in this session returned, without executing its target, a value that differs
+    // from the target's from-scratch output in the current state, while K1 taint exists.
+    if pattern.is_none() && rec.kind == SessKind::BottomUp && (!self.tainted.is_empty() || !self.tainted_res.is_empty()) {
+      let witness = rec.events.iter().any(|e| match e {
+        Ev::ReqRet { target, out, .. } if !executed_now.contains(target) => { let r = solo(*target); r.viol.is_none() && r.memo[*target as usize] != Some(*out) }
+        _ => false,
+      });
+      if witness {
+        self.rep.known_hit("K1-stale-output-consumed-by-bottom-up-build");
+        return None;
+      }
+    }
     match pattern {
       Some(sig) => {
         self.rep.known_hit(sig);
